@@ -38,6 +38,11 @@ pub struct ReadState {
     pub max_extent: u64,
     /// Progress counter shared with the write half, for "poll until quiescent" drivers.
     pub progress: u64,
+    /// The most recent poll of a read on this socket found nothing to deliver and returned
+    /// `Pending` - the moment at which a real transport registers the task's waker. False after
+    /// any read that completed. (The simulation drives with a no-op waker; this flag is how a
+    /// connection nobody is waiting on becomes visible.)
+    pub armed: bool,
 }
 
 #[derive(Debug, Default)]
@@ -145,7 +150,9 @@ impl ReadHalf for SimRead {
             if extent > st.max_extent {
                 st.max_extent = extent;
             }
-            match st.script.pop_front() {
+            let next = st.script.pop_front();
+            st.armed = next.is_none();
+            match next {
                 None => Poll::Pending,
                 Some(ReadEv::Pending) => {
                     st.progress += 1;
@@ -226,6 +233,8 @@ pub struct ListenerState {
     pub accepted: u64,
     pub polls: u64,
     pub progress: u64,
+    /// The most recent poll of `accept` found no connection and returned `Pending`.
+    pub armed: bool,
 }
 
 #[derive(Debug, Clone)]
@@ -256,6 +265,7 @@ impl zlink_core::Listener for SimListener {
         poll_fn(move |_cx| {
             let mut st = st.borrow_mut();
             st.polls += 1;
+            st.armed = st.incoming.is_empty();
             match st.incoming.pop_front() {
                 Some(s) => {
                     st.accepted += 1;
